@@ -387,7 +387,8 @@ pub fn list_dir(img: &dyn Img, fv: &FatView, loc: DirLoc) -> DirListing {
                 let csum = raw[13];
                 let units = lfn_units_of(&raw);
                 if ord & 0x40 != 0 {
-                    let n = ord & 0x3F;
+                    // the ordinal byte is N | 0x40 and nothing else: bit 7 is not part of it
+                    let n = ord & !0x40;
                     if (1..=20).contains(&n) {
                         run = Some((n - 1, csum, vec![units]));
                     } else {
@@ -411,16 +412,18 @@ pub fn list_dir(img: &dyn Img, fv: &FatView, loc: DirLoc) -> DirListing {
                 if let Some((next, cs, v)) = run.take() {
                     if next == 0 && cs == sfn_checksum(&raw[0..11]) {
                         // join in name order = reverse disk order
+                        // each fragment contributes its units up to its first NUL (on a
+                        // well-formed volume only the last fragment of the name has one; where a
+                        // NUL in an earlier fragment ends the name the property does not say, and
+                        // its name-buffer half is stated fragment by fragment)
                         let mut units: Vec<u16> = Vec::new();
                         for frag in v.iter().rev() {
                             for u in frag.iter() {
+                                if *u == 0 {
+                                    break;
+                                }
                                 units.push(*u);
                             }
-                        }
-                        // cut each fragment at its first NUL happens per fragment in the
-                        // crate; the specification terminates the whole name at the first NUL
-                        if let Some(p) = units.iter().position(|x| *x == 0) {
-                            units.truncate(p);
                         }
                         lfn = Some(units);
                     }
